@@ -712,6 +712,62 @@ def run_shared_den(case):
   return R(None, True, (dk, op))
 
 
+# ------------------------------------------- a ControlStream as a coefficient
+def gen_control(run):
+  for expr in ("f", "f+g", "g-f", "f*f", "f**2", "f.copy()", "f+f", "2*f-g"):
+    for where in ("a1", "b0", "b1"):
+      for sched in (0, 1, 2):
+        yield (expr, where, sched)
+
+
+def run_control(case):
+  """A coefficient given as a ControlStream: output n uses the value the control holds when output n is
+  asked for - in EVERY place the algebra put (a copy of) that coefficient."""
+  from audiolazy import ControlStream
+  expr, where, sched = case
+  N = 7
+  vals = [[F(2), F(2), F(5), F(5), F(-1), F(-1), F(3), F(3), F(3)],
+          [F(1, 2)] * 3 + [F(-3)] * 6,
+          [F(k + 1) for k in range(9)]][sched]
+  cs = ControlStream(Q(vals[0]))
+  one = [F(1)] * (N + 2)
+  c = list(vals)
+  if where == "a1":
+    f = ZFilter([1], [1, cs]); fn, fd = {0: one}, {0: one, 1: c}
+  elif where == "b0":
+    f = ZFilter([cs, 1], [1]); fn, fd = {0: c, 1: one}, {0: one}
+  else:
+    f = ZFilter([1, cs], [1, F(1, 2)]); fn, fd = {0: one, 1: c}, {0: one, 1: [F(1, 2)] * (N + 2)}
+  g = ZFilter([1, 1], [1, 0, F(1, 4)]); gn, gd = {0: one, 1: one}, {0: one, 2: [F(1, 4)] * (N + 2)}
+  sc = lambda p_, k_: {d: [v * k_ for v in s_] for d, s_ in p_.items()}
+  try:
+    if expr == "f": h, num, den = f, fn, fd
+    elif expr == "f+g": h, num, den = f + g, padd(pmul(fn, gd), pmul(gn, fd)), pmul(fd, gd)
+    elif expr == "g-f": h, num, den = g - f, padd(pmul(gn, fd), pneg(pmul(fn, gd))), pmul(gd, fd)
+    elif expr == "f*f": h, num, den = f * f.copy(), pmul(fn, fn), pmul(fd, fd)
+    elif expr == "f**2": h, num, den = f ** 2, pmul(fn, fn), pmul(fd, fd)
+    elif expr == "f.copy()": h, num, den = f.copy(), fn, fd
+    elif expr == "f+f":      # f and its copy have different denominator objects: cross-multiplied, element by element
+      h = f + f.copy()
+      num, den = (padd(pmul(fn, fd), pmul(fn, fd)), pmul(fd, fd)) if where == "a1" else (sc(fn, 2), fd)
+    else: h, num, den = 2 * f - g, padd(pmul(sc(fn, 2), gd), pneg(pmul(gn, fd))), pmul(fd, gd)
+    x = syms("x", N)
+    out = iter(h(list(x), zero=Q(0)))
+    got = []
+    for n in range(N):
+      cs.value = Q(vals[n])              # the value in force when output n is asked for
+      got.append(Sym.lift(next(out)))
+  except Exception as exc:
+    return bad("tv-control:exception:" + type(exc).__name__, "%s with a ControlStream coefficient raised" % expr, None, str(exc)[:200], True)
+  exp = tv_apply(num, den, x)
+  if len(got) != len(exp[:N]) or any(g_ is None or not (g_ == e_) for g_, e_ in zip(got, exp)):
+    k = next((i for i, (g_, e_) in enumerate(zip(got, exp)) if g_ is None or not (g_ == e_)), -1)
+    return bad("tv-control:value", "%s: output n must use, everywhere, the value the ControlStream coefficient (%s) holds "
+               "when output n is asked for" % (expr, where), {"n": k, "y": exp[k] if k >= 0 else None, "values": vals[:N]},
+               got[k] if k >= 0 else got, True)
+  return R(None, True, (expr, where))
+
+
 KINDS = OrderedDict([
   ("shapes", Kind(gen_shapes, run_shape, chunk=300,
                   rule="coefficient kind placements x construction route; non-trivial: >=1 Stream coefficient")),
@@ -727,4 +783,5 @@ KINDS = OrderedDict([
                        rule="every subset of coefficients replaced by constant streams")),
   ("long", Kind(gen_long, run_long, chunk=1, timeout=300, rule="periodic / constant coefficient streams over 64, 65, 130, 300 (1000) samples")),
   ("hub", Kind(gen_hub, run_hub, chunk=20, rule="one thub of coefficients x ordered selections of 2 or 3 filter expressions x consumption order")),
+  ("control-coefficient", Kind(gen_control, run_control, chunk=4, rule="filter expressions over one ControlStream coefficient x assignment schedules")),
 ])
